@@ -909,3 +909,93 @@ Example stop_window_reversed :
   let '(js, _) := s_run ex_scfg [SStart 3; SSample 0 [97%N] 1%N; SStop 7] (s_init ex_scfg) in
   map (fun j => (uj_start j, uj_end j)) js = [(3, 0)].
 Proof. reflexivity. Qed.
+
+(* ---- regular ticks are timely ---------------------------------------------------------------------------------------- *)
+(* "tick gaps shorter than the interval": each tick's reset reading t2 comes less than one interval after the
+   PREVIOUS tick's decision reading (the first tick: after Start), and Stop less than one interval after the last
+   tick's decision reading *)
+Fixpoint regular (I prev : Z) (ticks : list (Z * Z * list (nat * bytes * N))) (ts : Z) : Prop :=
+  match ticks with
+  | [] => ts < prev + I
+  | (t1, t2, _) :: r => t1 <= t2 /\ t2 < prev + I /\ regular I t1 r ts
+  end.
+
+Definition ticks_events (ticks : list (Z * Z * list (nat * bytes * N))) : list sevent :=
+  flat_map (fun x => tick (fst (fst x)) (snd (fst x)) (snd x)) ticks.
+
+Lemma trunc_lt_next : forall d t, 0 < d -> t < trunc d t + d.
+Proof. intros d t Hd. unfold trunc. pose proof (Z.mod_pos_bound t d Hd). lia. Qed.
+
+Lemma samples_keep : forall c (samples : list (nat * bytes * N)) s,
+  let s' := snd (s_run c (map (fun x => SSample (fst (fst x)) (snd (fst x)) (snd x)) samples) s) in
+  ss_start s' = ss_start s /\ ss_due s' = ss_due s /\ ss_stopped s' = ss_stopped s.
+Proof.
+  intros c samples. induction samples as [|x samples IH]; intro s; cbn [map s_run].
+  - cbn. auto.
+  - cbn [s_step]. specialize (IH (insert_sample c (fst (fst x)) (snd (fst x)) (snd x) s)).
+    destruct (s_run c (map _ samples) (insert_sample c (fst (fst x)) (snd (fst x)) (snd x) s)) as [js s2] eqn:E.
+    cbn [snd] in *. destruct IH as [A [B C]].
+    unfold insert_sample in A, B, C. destruct (snd (fst x)); cbn in *; auto.
+Qed.
+
+Lemma timely_samples : forall c (samples : list (nat * bytes * N)) rest s,
+  timely c rest (snd (s_run c (map (fun x => SSample (fst (fst x)) (snd (fst x)) (snd x)) samples) s)) ->
+  timely c (map (fun x => SSample (fst (fst x)) (snd (fst x)) (snd x)) samples ++ rest) s.
+Proof.
+  intros c samples rest. induction samples as [|x samples IH]; intros s H; cbn [map app].
+  - cbn in H. exact H.
+  - cbn [timely s_step snd]. split; auto. apply IH.
+    cbn [map s_run s_step] in H.
+    destruct (s_run c (map _ samples) (insert_sample c (fst (fst x)) (snd (fst x)) (snd x) s)) as [js s2] eqn:E.
+    cbn [snd] in *. exact H.
+Qed.
+
+Theorem regular_ticks_timely : forall c ticks ts prev s,
+  0 < sc_interval c -> regular (sc_interval c) prev ticks ts ->
+  ss_stopped s = false -> prev < trunc (sc_interval c) (ss_start s) + sc_interval c ->
+  timely c (ticks_events ticks ++ [SStop ts]) s.
+Proof.
+  intros c ticks. induction ticks as [|[[t1 t2] samples] r IH]; intros ts prev s HI R Hs J.
+  - cbn [regular] in R. unfold ticks_events. cbn [flat_map app timely]. split; auto. right. lia.
+  - cbn [regular] in R. destruct R as [R1 [R2 R3]].
+    unfold ticks_events. cbn [flat_map fst snd]. fold (ticks_events r).
+    unfold tick. cbn [app]. cbn [timely s_step snd]. split; auto.
+    rewrite <- !app_assoc.
+    apply timely_samples.
+    pose proof (samples_keep c samples (with_due s (is_due c s t1))) as K. cbn zeta in K.
+    set (s2 := snd (s_run c (map (fun x => SSample (fst (fst x)) (snd (fst x)) (snd x)) samples)
+                          (with_due s (is_due c s t1)))) in *.
+    destruct K as [K1 [K2 K3]]. cbn in K1, K2, K3.
+    cbn [app timely]. cbn [s_step]. rewrite K2.
+    destruct (is_due c s t1) eqn:D.
+    + (* due: reset at t2 *)
+      unfold do_reset. rewrite K3, Hs.
+      destruct (upload_tries c t2 s2) as [jj ss] eqn:E. cbn [fst snd].
+      split.
+      * right. rewrite K1. lia.
+      * assert (Hss : ss_stopped ss = false /\ ss_start ss = ss_start s2).
+        { unfold upload_tries in E. destruct (upload_slots _ _ _ _ _ _). inversion E; subst. cbn. rewrite K3. auto. }
+        apply (IH ts t1); auto.
+        -- cbn. tauto.
+        -- cbn. pose proof (trunc_lt_next (sc_interval c) t2 HI). lia.
+    + (* not due *)
+      cbn [fst snd]. split; [left; reflexivity|].
+      apply (IH ts t1); auto.
+      * rewrite K3. exact Hs.
+      * rewrite K1. unfold is_due in D. apply negb_false_iff in D. apply Z.eqb_eq in D.
+        rewrite <- D. apply trunc_lt_next. exact HI.
+Qed.
+
+(* a whole session with regular ticks: all windows are at most one interval long *)
+Theorem regular_session_windows : forall c t0 ticks ts js s',
+  0 < sc_interval c -> regular (sc_interval c) t0 ticks ts ->
+  s_run c (SStart t0 :: ticks_events ticks ++ [SStop ts]) (s_init c) = (js, s') ->
+  Forall (fun j => uj_end j - uj_start j <= sc_interval c) js.
+Proof.
+  intros c t0 ticks ts js s' HI R H.
+  eapply windows_at_most_one_interval; eauto.
+  destruct (start_step c t0) as [s1 [E1 [St1 [L1 [Hs1 [Hst1 _]]]]]].
+  cbn [timely]. rewrite E1. cbn [fst snd]. split; [left; reflexivity|].
+  eapply regular_ticks_timely; eauto.
+  rewrite Hst1. apply trunc_lt_next. exact HI.
+Qed.
